@@ -115,15 +115,15 @@ DivOK(a, b, q) == IF b = Zero THEN q = Zero ELSE LET r == SubW(a, MulW(q, b)) IN
 ModOK(a, b, q, r) == IF b = Zero THEN r = Zero ELSE IsDivMod(a, b, q, r)
 
 Abs(a) == IF IsNeg(a) THEN NegW(a) ELSE a
-(* SDIV truncates towards zero; the sign of SMOD is the sign of the dividend *)
+(* SDIV truncates towards zero: the magnitude of q is |a| div |b| (as an unsigned word, so that   *)
+(* MIN / -1 = MIN works out) and q is negative exactly when the operand signs differ.            *)
 SDivOK(a, b, q) ==
     IF b = Zero THEN q = Zero
-    ELSE LET qa == IF IsNeg(a) # IsNeg(b) THEN NegW(q) ELSE q IN   \* |q|
-         DivOK(Abs(a), Abs(b), Abs(qa)) /\ (Abs(qa) = qa \/ q = [i \in 1..N |-> IF i = N THEN B \div 2 ELSE 0])
+    ELSE LET m == IF IsNeg(a) # IsNeg(b) THEN NegW(q) ELSE q IN DivOK(Abs(a), Abs(b), m)
+(* SMOD: the remainder has the sign of the dividend; qabs = |a| div |b| is the hint *)
 SModOK(a, b, qabs, r) ==
     IF b = Zero THEN r = Zero
-    ELSE LET ra == IF IsNeg(a) THEN NegW(r) ELSE r IN              \* |r|
-         IsDivMod(Abs(a), Abs(b), qabs, ra)
+    ELSE LET ra == IF IsNeg(a) THEN NegW(r) ELSE r IN IsDivMod(Abs(a), Abs(b), qabs, ra)
 
 (* EXP by square-and-multiply over the bits of the exponent (most significant first) *)
 BitAt(e, k) == (e[(k \div LimbBits) + 1] \div Pow2(k % LimbBits)) % 2
